@@ -198,6 +198,9 @@ pub struct GenCfg {
     pub shadow_bias: usize,
     /// number of `res` statements of the main module
     pub res_range: (usize, usize),
+    /// imports may be spelled legally but not canonically: a needless percent escape, an
+    /// empty path segment, a fragment or a query (file-system front ends only)
+    pub odd_spellings: bool,
 }
 
 impl Default for GenCfg {
@@ -210,6 +213,7 @@ impl Default for GenCfg {
             examples_bias: 3,
             shadow_bias: 4,
             res_range: (1, 3),
+            odd_spellings: false,
         }
     }
 }
@@ -984,6 +988,8 @@ pub fn generate(rng: &mut Rng, cfg: &GenCfg) -> ProgramAst {
                     4 => format!("mé{i}.oal"),
                     5 => format!("sub dir/m{i}.oal"),
                     6 => format!("m+v{i}.oal"),
+                    7 => format!("defs{i}.inc"),
+                    8 => format!("M{i}.OAL"),
                     _ => format!("m{i}.oal"),
                 }
             },
@@ -1327,6 +1333,39 @@ pub fn generate(rng: &mut Rng, cfg: &GenCfg) -> ProgramAst {
             });
         }
 
+        // now and then one declaration is used hundreds of times (answers that list uses,
+        // such as references and rename edits, then get long)
+        if rng.chance(1, 40) {
+            if let Some(d) = done.iter().find(|d| d.params.is_empty() && matches!(d.kind, Kind::S(SK::Prim))).cloned() {
+                let nb = binders.len();
+                let name = format!("many{m}");
+                binders.push(Binder {
+                    kind: BinderKind::Decl,
+                    module: m,
+                    name: name.clone(),
+                    owner: None,
+                    is_function: false,
+                    is_reference: false,
+                    is_schema: true,
+                });
+                let mut toks = vec![t("let")];
+                toks.push(Tok { text: name, tight: false, eol: false, occ: Some(Occ { role: Role::DeclName, binder: Some(nb) }) });
+                toks.push(t("="));
+                toks.push(t("{"));
+                let n = rng.range(205, 260);
+                for k in 0..n {
+                    if k > 0 {
+                        toks.push(t(","));
+                    }
+                    toks.push(t(&format!("'u{k}")));
+                    toks.push(Tok { text: d.name.clone(), tight: false, eol: false, occ: Some(Occ { role: Role::Use, binder: Some(d.binder) }) });
+                }
+                toks.push(t("}"));
+                toks.push(t(";"));
+                stmts.push(Stmt { kind: StmtKind::Decl, toks });
+                features.insert("declaration_used_hundreds_of_times");
+            }
+        }
         // textual order is free: declarations may be used before their definition
         rng.shuffle(&mut stmts);
         if stmts.iter().any(|s| s.kind == StmtKind::Res) {
@@ -1338,7 +1377,24 @@ pub fn generate(rng: &mut Rng, cfg: &GenCfg) -> ProgramAst {
         for imp in imports.iter() {
             let from = asts[m].path.clone();
             let to = asts[imp.module].path.clone();
-            let rel = crate::loader_sim::spell(&from, &to, if rng.chance(1, 5) { 1 } else { 0 });
+            let mut rel = crate::loader_sim::spell(&from, &to, if rng.chance(1, 5) { 1 } else { 0 });
+            if cfg.odd_spellings && rng.chance(1, 3) && rel.is_ascii() && !rel.contains(' ') && !rel.contains('+') {
+                features.insert("odd_import_spelling");
+                rel = match rng.below(4) {
+                    0 => {
+                        // needless escape of the file name's first character
+                        let cut = rel.rfind('/').map(|i| i + 1).unwrap_or(0);
+                        let c = rel.as_bytes()[cut];
+                        format!("{}%{:02X}{}", &rel[..cut], c, &rel[cut + 1..])
+                    }
+                    1 => match rel.rfind('/') {
+                        Some(i) => format!("{}//{}", &rel[..i], &rel[i + 1..]),
+                        None => format!(".//{rel}"),
+                    },
+                    2 => format!("{rel}#v1"),
+                    _ => format!("{rel}?rev=2"),
+                };
+            }
             let mut toks = vec![t("use"), t(&format!("\"{rel}\""))];
             if let Some((q, qb)) = &imp.qualifier {
                 toks.push(t("as"));
